@@ -271,7 +271,7 @@ def hyp_shard(rec, shard):
 
 
 def main(ctx):
-    n = 500 if ctx.tier == 'quick' else 20000
+    n = 1500 if ctx.tier == 'quick' else 20000
     w = 5 if ctx.tier == 'quick' else 16
     ctx.pmap('hyp_shard', [('write', k, n // w) for k in range(w)] + [('read', k, n // w) for k in range(w)] +
              [('clip', k, n // w) for k in range(w)])
